@@ -54,6 +54,20 @@ Proof.
   destruct ctype; [apply IH|].
   destruct (part_body (S (length r3)) bd r3 []) as [[b r4]|]; [apply IH|split; discriminate].
 Qed.
+(* the older reader with the fixed separator: an error or a list, never a panic value *)
+Lemma rmp_loop_nopanic : forall fuel rest acc, rmp_loop fuel rest acc <> PPanicCL /\ rmp_loop fuel rest acc <> PPanicIdx.
+Proof.
+  induction fuel as [|f IH]; intros rest acc; cbn [rmp_loop]; [split; discriminate|].
+  destruct (split_line rest) as [l0 r0]. destruct (negb (utf8_valid l0)); [split; discriminate|].
+  destruct l0 as [|c0 l0']; [split; discriminate|].
+  match goal with |- context [match ?x with None => PErr | Some _ => _ end] => destruct x as [[l1 r1]|] end; [|split; discriminate].
+  match goal with |- context [match ?x with None => PErr | Some _ => _ end] => destruct x as [[[ctype l2] r2]|] end; [|split; discriminate].
+  match goal with |- context [match ?x with None => PErr | Some _ => _ end] => destruct x as [[[cr l5] r5]|] end; [|split; discriminate].
+  destruct cr as [[[st en] sz]|]; [|apply IH]. destruct ctype as [|t0 ts]; [apply IH|].
+  match goal with |- context [match ?x with None => PErr | Some _ => _ end] => destruct x as [[b' r6]|] end; [apply IH|split; discriminate].
+Qed.
+Theorem rmp_parse_no_panic input : rmp_parse input <> PPanicCL /\ rmp_parse input <> PPanicIdx.
+Proof. apply rmp_loop_nopanic. Qed.
 Theorem response_parse_no_panic input : response_parse input <> PPanicCL /\ response_parse input <> PPanicIdx.
 Proof.
   unfold response_parse. destruct (split_line input) as [line rest]. destruct (negb (utf8_valid line)); [split; discriminate|].
